@@ -54,8 +54,8 @@ def rv(args, stdin=None, timeout=3600):
         log(p.stderr[-2000:])
         raise ToolError(f"harness {args[:1]} exited {p.returncode}")
     out = []
-    for line in p.stdout.splitlines():
-        line = line.strip()
+    for line in p.stdout.split("\n"):      # not splitlines(): U+0085 / U+2028 may occur inside JSON strings
+        line = line.strip(" \t\r")
         if line:
             out.append(json.loads(line))
     return out
